@@ -11,7 +11,7 @@ SOLVER_STATS_SAME = "forall(k, 0, 13, implies(k == STATS_IDX_SOLVER_CHOICE_NB or
 T0 = "old(stacks_top)[0]"
 
 SB_WF_STATIC = [(l, c.replace("decision_domains", "decision_variables")) for l, c in WF_STATIC]
-contract(SH + "shave_bound", types=SB_T, result="bool", props=["C10", "C16", "C17", "C19", "C09"],
+contract(SH + "shave_bound", types=SB_T, result="bool", props=["C10", "C16", "C17", "C19", "C09", "C01", "C02", "C08"],
     requires=SB_WF_STATIC + WF_DYN + ["stacks_top[0] + 1 < H", "bound == MIN or bound == MAX", "0 <= dom_idx and dom_idx < D",
                                    "shr_domains_stack[stacks_top[0], dom_idx, MIN] < shr_domains_stack[stacks_top[0], dom_idx, MAX]"],
     ghost_results={"bound_consistency_algorithm": "probe_status"}, ghost={"sigma": "int[D]"},
@@ -31,7 +31,7 @@ contract(SH + "shave_bound", types=SB_T, result="bool", props=["C10", "C16", "C1
         ("C17.backtracks", f"statistics[{BTN}] == old(statistics)[{BTN}] + 1"),
         ("C17.shaving_stats", "forall(k, 1, 5, statistics[k] == old(statistics)[k])"),
     ],
-    tags={"C10": ["C10"], "C17": ["C17"], "wf": ["C16", "C19"]}, arities=[])
+    tags={"C10": ["C10"], "C10.wake": ["C10", "C01", "C02", "C08"], "C10.preserve": ["C10", "C02", "C03"], "C10.justified": ["C10", "C02"], "C17": ["C17"], "wf": ["C16", "C19"]}, arities=[])
 
 SH_INV = [
     ("C10.top", f"stacks_top[0] == {T0}"),
